@@ -190,7 +190,7 @@ func scalarPopulated(fd protoreflect.FieldDescriptor, v protoreflect.Value) bool
 }
 
 type fieldClasses struct {
-	all, maps, msgs []protoreflect.FieldDescriptor
+	all, maps, msgs, anys []protoreflect.FieldDescriptor
 }
 
 var classCache = map[protoreflect.FullName]*fieldClasses{}
@@ -202,6 +202,9 @@ func classify(md protoreflect.MessageDescriptor) *fieldClasses {
 	c := &fieldClasses{}
 	for _, fd := range sortedFields(md) {
 		c.all = append(c.all, fd)
+		if m := fd.Message(); m != nil && !fd.IsMap() && m.FullName() == "google.protobuf.Any" {
+			c.anys = append(c.anys, fd)
+		}
 		if fd.IsMap() {
 			c.maps = append(c.maps, fd)
 			if fd.MapValue().Kind() == protoreflect.MessageKind {
@@ -258,6 +261,8 @@ func gen(t *simhook.Tape, md protoreflect.MessageDescriptor, cfg GenCfg, depth i
 	for i := 0; i < nf; i++ {
 		var fd protoreflect.FieldDescriptor
 		switch c := t.Draw("fclass", 10); {
+		case c == 9 && len(cl.anys) > 0 && len(cfg.AnyTargets) > 0:
+			fd = cl.anys[t.Draw("fanyfield", len(cl.anys))]
 		case c >= 6 && len(cl.maps) > 0:
 			fd = cl.maps[t.Draw("fmap", len(cl.maps))]
 		case c >= 3 && len(cl.msgs) > 0 && depth < cfg.MaxDepth:
